@@ -1174,10 +1174,23 @@ impl Server {
             return Ok(RespFrame::null_array());
         }
         
-        // Execute commands
+        // Execute commands. A queued SELECT is executed like any other command (as in Redis): it changes the
+        // connection's database, the commands queued after it run there, and the selection stays after EXEC.
         let mut results = Vec::new();
+        let mut db_index = db_index;
         for cmd_parts in commands_to_execute.iter() {
-            match self.process_command_parts(&cmd_parts, db_index) {
+            let is_select = matches!(cmd_parts.first(), Some(RespFrame::BulkString(Some(name)))
+                if String::from_utf8_lossy(name).to_uppercase() == "SELECT");
+            let outcome = if is_select {
+                let reply = self.handle_select(cmd_parts, conn_id);
+                if let Some(selected) = self.connections.with_connection(conn_id, |conn| conn.db_index) {
+                    db_index = selected;
+                }
+                reply
+            } else {
+                self.process_command_parts(&cmd_parts, db_index)
+            };
+            match outcome {
                 Ok(response) => results.push(response),
                 Err(e) => {
                     results.push(Self::error_reply(&e));
